@@ -30,7 +30,7 @@ THEOREMS = [
 LEAN_MODULES = ["PorepyVerif.C10.Props"]
 AUDIT = "PorepyVerif/C10/Audit.lean"
 DRIVER = "PorepyVerif/C10/Driver.lean"
-N = {"quick": 30, "thorough": 600}
+N = {"quick": 24, "thorough": 300}
 RULE = ("one case = one complete run of pp.run_time_dependent_model on a compressible SinglePhaseFlow model (Cartesian grid 1x1..3x2, "
         "Dirichlet boundary, time_step_indices/iterate_indices of length 1-3, max_iterations 0-4) with an adaptive TimeManager on dyadic "
         "parameters (schedule of 2-4 points, recomp_max 1-4, recomp_factor 1/4..3/4; 8% constant dt) and a tape that decides for every Newton "
@@ -593,6 +593,12 @@ def oracle(case):
                 return {"what": f"solve {s} failed and the stored time steps changed", "key": "failed-ts-window-changed"}
             if not close(last["t"], acc_t[0]) or last["ti"] != len(accepted) - 1:
                 return {"what": f"solve {s} failed: time {last['t']} (index {last['ti']}) is not the last accepted time {acc_t[0]} (index {len(accepted) - 1})", "key": "failed-time-not-rewound"}
+            (bit, _), = last["bc"]  # boundary values follow the clock back to the last accepted time
+            if float(bit[0]) != g(acc_t[0]):
+                known = case["bc"] == "time" and float(bit[0]) == g(loop["t"])
+                return {"what": f"solve {s} at t={loop['t']} failed and time was reset to {last['t']}, but the current boundary values are still those of t={float(bit[0])} "
+                                f"(they are shifted into the previous-time-step storage when the step is recomputed)",
+                        "key": "bc-ts0-after-failed-step" if known else "bc-history-other"}
             prev_failed = loop["t"]
         elif last["e"] == "raise":
             pf = rec.pre_failure
